@@ -460,4 +460,148 @@ example :
       formatComment ⟨0, false, true⟩ (exReq 77 1) ++ formatComment ⟨0, true, false⟩ (exReq 77 1) := by
   decide +kernel
 
+/-! #### interleaved commenters
+
+Recommend reads the entry once (phase A) and updates the index later (phase B) from that copy; between the two
+it may sleep on the article's lock while other commenters complete.  `Ticket` is what a commenter carries
+across; `stepEv` is one scheduling step (a phase A, a write, an index update) of any number of commenters. -/
+
+/-- **stale_update_saturates**: the index update of phase B keeps every in-range score in range and moves it by
+at most one, for EVERY ticket — whatever copy of the entry phase A saw, however stale its score.  This rests on
+ModifyDirLite clamping the SUM of the score it re-reads and the delta (`score_step`); a score can only move
+when the update succeeds and addresses that entry. -/
+theorem stale_update_saturates (st : St) (t : Ticket) (j : Nat) (hj : (j + 1) * dirSz ≤ st.dir.bytes.length)
+    (hr : InRange (st.dir.bytes.getD (j * dirSz + 33) 0)) :
+    (phaseIndex st t).1.dir.bytes.length = st.dir.bytes.length ∧
+    InRange ((phaseIndex st t).1.dir.bytes.getD (j * dirSz + 33) 0) ∧
+    -1 ≤ scoreAt (phaseIndex st t).1.dir.bytes j - scoreAt st.dir.bytes j ∧
+    scoreAt (phaseIndex st t).1.dir.bytes j - scoreAt st.dir.bytes j ≤ 1 ∧
+    (scoreAt (phaseIndex st t).1.dir.bytes j ≠ scoreAt st.dir.bytes j →
+      (phaseIndex st t).2.isOk = true ∧ t.idx = j + 1) := by
+  obtain ⟨_, hl, _, hs⟩ := phaseIndex_cases st t
+  refine ⟨hl, ?_⟩
+  unfold scoreAt
+  rcases hs j hj with h | ⟨hok, hidx, u, hu, h⟩
+  · rw [h]; exact ⟨hr, by omega, by omega, fun hne => absurd rfl hne⟩
+  · rw [h]
+    have hstep := score_step _ u hr hu
+    refine ⟨?_, hstep.2.1, hstep.2.2, fun _ => ⟨hok, hidx⟩⟩
+    unfold InRange
+    rw [hstep.1]; exact clamp_range _
+
+/-- the rule of the seeded mutant (saturation tests on the OLD on-disk score instead of old + delta). -/
+def recommendUpdateOldClamp (cur : Nat) (delta : Int) : Nat :=
+  if delta = 0 then cur
+  else
+    let r := addInt8 delta (toInt8 cur)
+    let r := if toInt8 cur > maxRec then maxRec else if toInt8 cur < -maxRec then -maxRec else r
+    int8Byte r
+
+/-- with that rule the theorem above is false, although nothing changes sequentially: for every stored byte
+and every type the sequential comment path (delta decided from the SAME byte) stores the same value, but a
+push decided from a stale 99 on an on-disk 100 stores 101 (and a boo from a stale -99 on -100 stores -101). -/
+theorem old_value_clamp_fails :
+    (∀ cur, cur < 256 → ∀ t, t < 4 →
+      recommendUpdateOldClamp cur (scoreUpdate t (toInt8 cur)) = recommendUpdate cur (scoreUpdate t (toInt8 cur))) ∧
+    InRange 100 ∧ toInt8 (recommendUpdateOldClamp 100 (scoreUpdate COMMENT_TYPE_RECOMMEND (toInt8 99))) = 101 ∧
+    InRange 156 ∧ toInt8 (recommendUpdateOldClamp 156 (scoreUpdate COMMENT_TYPE_BOO (toInt8 157))) = -101 ∧
+    toInt8 (recommendUpdate 100 (scoreUpdate COMMENT_TYPE_RECOMMEND (toInt8 99))) = 100 := by
+  decide +kernel
+
+/-- how many of the steps are successful index updates of entry `j` (successful comments on it). -/
+def stepMoves (j : Nat) (s : Sys) : Ev → Nat
+  | .index i =>
+    match s.pending[i]? with
+    | some t => if t.idx = j + 1 ∧ (phaseIndex s.st t).2.isOk = true then 1 else 0
+    | none => 0
+  | _ => 0
+
+def moves (find : Bytes → Nat → Bytes → Option Nat) (j : Nat) : Sys → List Ev → Nat
+  | _, [] => 0
+  | s, ev :: rest => stepMoves j s ev + moves find j (stepEv find s ev) rest
+
+theorem step_scores (find : Bytes → Nat → Bytes → Option Nat) (s : Sys) (ev : Ev) (j : Nat)
+    (hj : (j + 1) * dirSz ≤ s.st.dir.bytes.length) (hr : InRange (s.st.dir.bytes.getD (j * dirSz + 33) 0)) :
+    (stepEv find s ev).st.dir.bytes.length = s.st.dir.bytes.length ∧
+    InRange ((stepEv find s ev).st.dir.bytes.getD (j * dirSz + 33) 0) ∧
+    -(stepMoves j s ev : Int) ≤ scoreAt (stepEv find s ev).st.dir.bytes j - scoreAt s.st.dir.bytes j ∧
+    scoreAt (stepEv find s ev).st.dir.bytes j - scoreAt s.st.dir.bytes j ≤ (stepMoves j s ev : Int) := by
+  have same : ∀ s' : Sys, s'.st.dir = s.st.dir →
+      s'.st.dir.bytes.length = s.st.dir.bytes.length ∧ InRange (s'.st.dir.bytes.getD (j * dirSz + 33) 0) ∧
+      scoreAt s'.st.dir.bytes j - scoreAt s.st.dir.bytes j = 0 := by
+    intro s' h; rw [h]; exact ⟨rfl, hr, by omega⟩
+  cases ev with
+  | begin cfg q =>
+    have := same (stepEv find s (.begin cfg q)) (by simp only [stepEv]; split <;> rfl)
+    simp only [stepMoves]; refine ⟨this.1, this.2.1, by omega, by omega⟩
+  | write i =>
+    have := same (stepEv find s (.write i)) (by
+      simp only [stepEv]
+      split
+      · rfl
+      · split
+        · rename_i h; exact phaseWrite_dir h
+        · rfl)
+    simp only [stepMoves]; refine ⟨this.1, this.2.1, by omega, by omega⟩
+  | index i =>
+    simp only [stepEv, stepMoves]
+    cases hp : s.pending[i]? with
+    | none => simp only []; exact ⟨by first | rfl | trivial, hr, by omega, by omega⟩
+    | some t =>
+      simp only []
+      obtain ⟨h1, h2, h3, h4, h5⟩ := stale_update_saturates s.st t j hj hr
+      refine ⟨h1, h2, ?_, ?_⟩
+      · split
+        · omega
+        · rename_i hc
+          have : scoreAt (phaseIndex s.st t).1.dir.bytes j = scoreAt s.st.dir.bytes j := by
+            apply Classical.byContradiction; intro hne
+            have := h5 hne; exact hc ⟨this.2, this.1⟩
+          omega
+      · split
+        · omega
+        · rename_i hc
+          have : scoreAt (phaseIndex s.st t).1.dir.bytes j = scoreAt s.st.dir.bytes j := by
+            apply Classical.byContradiction; intro hne
+            have := h5 hne; exact hc ⟨this.2, this.1⟩
+          omega
+
+/-- **interleaved_scores_bounded**: for EVERY interleaving of the phases of any number of commenters — any
+event list, from any system state, with any tickets already pending (so with arbitrarily stale copies) — the
+index keeps its length, every entry whose score is in [-100,100] keeps a score in [-100,100], and its score has
+moved by at most the number of successful index updates (= successful comments) on that entry. -/
+theorem interleaved_scores_bounded (find : Bytes → Nat → Bytes → Option Nat) (evs : List Ev) (s : Sys) (j : Nat)
+    (hj : (j + 1) * dirSz ≤ s.st.dir.bytes.length) (hr : InRange (s.st.dir.bytes.getD (j * dirSz + 33) 0)) :
+    (runEv find s evs).st.dir.bytes.length = s.st.dir.bytes.length ∧
+    InRange ((runEv find s evs).st.dir.bytes.getD (j * dirSz + 33) 0) ∧
+    -(moves find j s evs : Int) ≤ scoreAt (runEv find s evs).st.dir.bytes j - scoreAt s.st.dir.bytes j ∧
+    scoreAt (runEv find s evs).st.dir.bytes j - scoreAt s.st.dir.bytes j ≤ (moves find j s evs : Int) := by
+  induction evs generalizing s with
+  | nil => exact ⟨rfl, hr, by simp [runEv, moves], by simp [runEv, moves]⟩
+  | cons ev rest ih =>
+    obtain ⟨a1, a2, a3, a4⟩ := step_scores find s ev j hj hr
+    obtain ⟨b1, b2, b3, b4⟩ := ih (stepEv find s ev) (by rw [a1]; exact hj) a2
+    have hrun : runEv find s (ev :: rest) = runEv find (stepEv find s ev) rest := rfl
+    rw [hrun]
+    refine ⟨by rw [b1, a1], b2, ?_, ?_⟩
+    · simp only [moves, Int.natCast_add]; omega
+    · simp only [moves, Int.natCast_add]; omega
+
+/-- the sequential comment is the special case "phase A, write, index" with nothing in between. -/
+theorem sequential_is_interleaving (find : Bytes → Nat → Bytes → Option Nat) (cfg : Cfg) (st : St) (q : Req) :
+    recommend find cfg st q =
+      match phaseA find cfg st q with
+      | .error e => (st, e)
+      | .ok t => phaseB st t :=
+  recommend_eq_phases find cfg st q
+
+/-- non-vacuity: two pushes on an entry at 99 whose lookups both happen before either index update: both
+succeed, the score is 100 (not 101). -/
+example :
+    let s0 : Sys := ⟨exSt 77 0 99, []⟩
+    let evs := [Ev.begin ⟨0, false, true⟩ (exReq 77 1), .begin ⟨0, false, true⟩ (exReq 77 1), .write 0, .index 0, .write 0, .index 0]
+    (runEv findLinear s0 evs).st.dir.bytes.getD 33 0 = 100 ∧ moves findLinear 0 s0 evs = 2 ∧
+    (runEv findLinear s0 evs).pending = [] := by
+  decide +kernel
+
 end PttVerif.C10.Props
